@@ -42,13 +42,15 @@ import (
 // errorClass maps the message of a parser error to "" (syntactic / scope error, modelled),
 // a typing site name of Pratt.tsite (the model mirrors the blamed token), or "-" (typing,
 // errors only, blamed token not mirrored).
-func errorClass(msg string) string {
+func errorClass(msg string, tokAt string) string {
 	has := func(x string) bool { return strings.Contains(msg, x) }
 	switch {
 	case has("unary expects"), has("invalid unary operator"):
 		return "unary"
+	case c03pArityRE.MatchString(msg):
+		return "arity" // assertArgTypes, argument count: modelled, blamed token (arg.Token()) not mirrored
 	case has(" takes ") && has("argument"), has("it has no return value") && !has("invalid declaration"):
-		return "-" // assertArgTypes
+		return "-" // assertArgTypes, argument types
 	case has("invalid binary operator"), has("mismatched type for"), has(`" takes num, string or array type`), has(`" takes num or array type`),
 		has(`array repetition ("*")`), has("takes num type, found"), has("takes num or string type"), has("takes bool type"):
 		return "binary"
@@ -75,6 +77,10 @@ func errorClass(msg string) string {
 		return "assign_string_index"
 	case has("invalid declaration, function"):
 		return "decl_none"
+	case (has("expected return value of type") || has("expected no return value")) && strings.HasSuffix(msg, ", found ILLEGAL"):
+		return "" // the value expression failed (nil): modelled exactly
+	case has("expected return value of type") && strings.HasSuffix(msg, ", found none") && (tokAt == "NL" || tokAt == "COMMENT" || tokAt == "EOF"):
+		return "" // bare return in a function with a return type: modelled exactly
 	case has("expected return value of type"), has("expected no return value"):
 		return "return_type"
 	case has("range with more than one argument must be num"):
@@ -89,11 +95,14 @@ func errorClass(msg string) string {
 	return ""
 }
 
+var c03pArityRE = regexp.MustCompile(`takes \d+ arguments?, found \d+$`)
+
 var c03pErrRE = regexp.MustCompile(`^line (\d+) column (\d+): (.*)$`)
 
 type goErr struct {
 	Line, Col int
 	Msg       string
+	Class     string // errorClass of the message
 }
 
 type goParse struct {
@@ -130,6 +139,20 @@ func c03pGoParse(src string) (out goParse) {
 		c, _ := strconv.Atoi(m[2])
 		out.Errs = append(out.Errs, goErr{Line: l, Col: c, Msg: m[3]})
 	}
+	// classify (needs the type of the blamed token for one message)
+	tokAt := map[[2]int]string{}
+	lx := lexer.New(src)
+	for i, limit := 0, len([]rune(src))+2; i <= limit; i++ {
+		t := lx.Next()
+		tokAt[[2]int{t.Line, t.Col}] = t.Type.String()
+		if t.Type == lexer.EOF {
+			break
+		}
+	}
+	for i := range out.Errs {
+		e := &out.Errs[i]
+		e.Class = errorClass(e.Msg, tokAt[[2]int{e.Line, e.Col}])
+	}
 	return out
 }
 
@@ -152,7 +175,11 @@ var c03pTables = func() [3]SX {
 	var fs, gs, es []SX
 	for _, n := range fn {
 		f := b.Funcs[n]
-		fs = append(fs, Lst(Str(n), Bool(len(f.Params) == 0 && f.VariadicParam == nil)))
+		ar := SX(Int(int64(len(f.Params))))
+		if f.VariadicParam != nil {
+			ar = Sym("variadic")
+		}
+		fs = append(fs, Lst(Str(n), Bool(len(f.Params) == 0 && f.VariadicParam == nil), ar))
 	}
 	for _, n := range gl {
 		gs = append(gs, Str(n))
@@ -197,7 +224,7 @@ func c03pModelParse(model *Model, src string, g goParse) (modelParse, bool, erro
 	}
 	var oracle []SX
 	for _, e := range g.Errs {
-		if c := errorClass(e.Msg); c != "" && c != "-" {
+		if c := e.Class; c != "" && c != "-" && c != "arity" {
 			n, ok := left[[2]int{e.Line, e.Col}]
 			if !ok {
 				return modelParse{}, false, nil // blamed position is not a token: cannot build the oracle
@@ -250,9 +277,12 @@ func c03pCheck(src, stream string, model *Model, r *Result) string {
 	var impl [][2]int
 	typing, dropped := 0, 0
 	for _, e := range g.Errs {
-		switch errorClass(e.Msg) {
+		switch e.Class {
 		case "-":
 			dropped++
+			continue
+		case "arity":
+			impl = append(impl, [2]int{0, 0})
 			continue
 		case "":
 		default:
@@ -263,7 +293,7 @@ func c03pCheck(src, stream string, model *Model, r *Result) string {
 	show := func() any {
 		var l []string
 		for _, e := range g.Errs {
-			l = append(l, fmt.Sprintf("%d:%d [%s] %s", e.Line, e.Col, errorClass(e.Msg), e.Msg))
+			l = append(l, fmt.Sprintf("%d:%d [%s] %s", e.Line, e.Col, e.Class, e.Msg))
 		}
 		return l
 	}
